@@ -127,6 +127,15 @@ def build_db(ft, lemmas, goal_variant):
                 mmgen.apply('proof-rule-prop-1', fr10, {'ph0': ph0, 'ph1': x}, [])]),
             mmgen.apply('ax-dd', fr10, {'ph0': ph0, 'ph1': d3}, [])])
         st.append(('p', 'l10', (TH, IMP(ph0, ph0)), mmref.encode_compressed(t, mand(['ph0']), 'all')))
+    if 'L14' in lemmas:
+        # an outermost $d ph0 ph1 that a proof step needs, and a lemma with TWO $d statements of its own, ph0 in one and ph1 in
+        # the other (neither holds both)
+        st.append(('d', ('ph0', 'ph1')))
+        st.append(('block', [('d', ('ph0', 'ph1')), ('a', 'ax-d14', (TH, IMP(ph0, IMP(ph1, ph0))))]))
+        _, fr14 = frames_of(st)
+        t = mmgen.apply('ax-d14', fr14, {'ph0': ph0, 'ph1': ph1}, [])
+        st.append(('block', [('d', ('ph0', 'ph2')), ('d', ('ph1', 'ph2')),
+                             ('p', 'l14', (TH, IMP(ph0, IMP(ph1, ph0))), mmref.encode_compressed(t, mand(['ph0', 'ph1']), 'none'))]))
     _, fr = frames_of(st)
     # goal variants
     if goal_variant == 'refl' and 'L1' in lemmas:
@@ -170,6 +179,9 @@ def build_db(ft, lemmas, goal_variant):
     elif goal_variant == 'latevar' and 'L13' in lemmas:
         target = IMP(c0, c0)
         t = mmgen.apply('l13', fr, {'ph3': c0}, [])
+    elif goal_variant == 'twodv' and 'L14' in lemmas:
+        target = IMP(c0, IMP(A('c1'), c0))
+        t = mmgen.apply('l14', fr, {'ph0': c0, 'ph1': A('c1')}, [])
     elif goal_variant == 'axiom':
         target = IMP(c0, A('c1'))
         t = ('ax-a', [])
@@ -186,8 +198,8 @@ def specs(thorough):
     for o in orders:
         for notation in (False, True):
             for k in range(0, 12 if thorough else 4):
-                for lem in itertools.combinations(('L1', 'L2', 'L3', 'L4', 'L5', 'L6', 'L7', 'L8', 'L10', 'L12', 'L13'), k):
-                    for gv in ('refl', 'rule', 'both', 'dv', 'nested', 'notation', 'gdv', 'dvextra', 'dummy', 'dummydv', 'chain', 'outerhyp', 'latevar', 'axiom'):
+                for lem in itertools.combinations(('L1', 'L2', 'L3', 'L4', 'L5', 'L6', 'L7', 'L8', 'L10', 'L12', 'L13', 'L14'), k):
+                    for gv in ('refl', 'rule', 'both', 'dv', 'nested', 'notation', 'gdv', 'dvextra', 'dummy', 'dummydv', 'chain', 'outerhyp', 'latevar', 'twodv', 'axiom'):
                         out.append((o, notation, lem, gv))
     return out
 
